@@ -111,6 +111,18 @@ GROUPS["burst"] = dict(
              trigs=["bc"], max_ops=4, budget=12, steps=3, ntypes=1, nvals=2, p_gcpoll=5, p_notake=15,
              init=[["ins", 1, 1, 1], ["ins", 2, 1, 1], ["reg", "persistent", 1, [["bc", 1], ["eev", 1, 1], ["mut", 1], ["ins", 1], ["res", 1]], 0]]),
 )
+# many entity reactions (insertion / mutation / entity event, different sources) from one run to one busy listener: C12 C03
+GROUPS["erburst"] = dict(
+    subst=dict(Bundles="B_One", InitOps="Init_ErBurst"),
+    mc_quick=C(NSys=2, NEnt=2, OpNames={"eev", "mut", "ins"}, MaxOps=4, Budget=4, MaxSteps=2),
+    mc_thorough=C(NSys=2, NEnt=2, NTy=2, OpNames={"eev", "mut", "ins", "trig", "run"}, MaxOps=4, Budget=5, MaxSteps=2),
+    gen=C(NSys=2, NEnt=2, NTy=2, NVal=2, OpNames={"eev", "mut", "ins", "trig", "run", "rm"}, MaxOps=5, Budget=10, MaxSteps=3),
+    rnd=dict(cfg=dict(kinds=["plain", "plain"], nonce=0, nent=2), alphabet=["eev", "mut", "ins", "trig", "run", "rm", "eev", "mut", "trig"],
+             trigs=["bc"], max_ops=5, budget=14, steps=3, ntypes=2, nvals=2, p_gcpoll=5,
+             init=[["ins", 1, 1, 1], ["ins", 2, 1, 1], ["ins", 1, 2, 1],
+                   ["reg", "persistent", 1, [["anyev", 1], ["mut", 1], ["ins", 1], ["mut", 2]], 0],
+                   ["reg", "persistent", 2, [["eev", 1, 1], ["emut", 2, 1], ["rem", 1]], 0]]),
+)
 # long trees (dozens of commands in one flush): random programs only, validated by TraceProps and TraceConf
 GROUPS["long"] = dict(
     rnd=dict(cfg=dict(kinds=["plain", "plain", "plain"], nonce=0, nent=1), alphabet=["run", "sysev", "bc", "eev", "probe"],
@@ -131,24 +143,35 @@ ENUMS = {
                    consts=C(NSys=2, NOnce=1, NEnt=1, OpNames={"reg", "revoke", "once", "desp", "rm", "res", "despsys"}, Modes={"cleanup", "revokable"},
                             MaxOps=3, BodyOps=0, Budget=3, MaxSteps=3, FinalStep="clear")),
 }
+# removal / despawn polling after table edits: entity-scoped removal and despawn registrations are in place (init step), the
+# enumerated ops edit type-wide tables next to them, revoke, remove and despawn
+ENUMS["tabrem"] = dict(subst=dict(Bundles="B_Comp1", InitOps="Init_TabRem"),
+                       consts=C(NSys=3, NOnce=1, NEnt=2, OpNames={"reg", "revoke", "once", "rm", "desp", "ins"}, Modes={"revokable"},
+                                MaxOps=3, BodyOps=0, Budget=3, MaxSteps=3, FinalStep="clear"))
+ENUMS["tabdesp"] = dict(subst=dict(Bundles="B_Desp", InitOps="Init_TabDesp"),
+                        consts=C(NSys=3, NOnce=1, NEnt=2, OpNames={"revoke", "desp", "once", "reg"}, Modes={"revokable"},
+                                 MaxOps=3, BodyOps=0, Budget=3, MaxSteps=3, FinalStep="clear"))
+ENUMS["tabworld"] = dict(subst=dict(Bundles="B_World1", InitOps="Init_Ins"),
+                         consts=C(NSys=1, NW=1, NER=1, NEnt=1, NVal=2, OpNames={"eadd", "erem", "wadd", "wrem", "mut", "eev", "bc"},
+                                  MaxOps=3, BodyOps=0, Budget=3, MaxSteps=3, FinalStep="clear"))
 PROP_ENUMS = {
     "C01": ["tabcomp", "tabev"], "C06": ["tabcomp", "tabev"], "C07": ["tabev", "tabmix", "tabcomp"], "C15": ["tabev", "tabcomp"],
-    "C18": ["tabmix"], "C08": ["tabmix"],
+    "C16": ["tabworld"], "C18": ["tabmix"], "C08": ["tabmix", "tabrem", "tabdesp"],
 }
 
 # which groups decide which property; the first group is the property's "home"
 PROP_GROUPS = {
     "C01": ["reg", "ev", "comp"],
     "C02": ["run", "ev", "long"],
-    "C03": ["ev", "mix", "burst"],
+    "C03": ["ev", "mix", "burst", "erburst"],
     "C04": ["ev", "run"],
     "C05": ["ev", "reg", "mix"],
     "C06": ["reg", "comp"],
     "C07": ["reg", "comp"],
     "C08": ["comp", "mix"],
     "C09": ["run", "ev", "burst"],
-    "C11": ["run", "reg"],
-    "C12": ["run", "burst", "ev"],
+    "C11": ["run", "reg", "mix"],
+    "C12": ["run", "burst", "ev", "erburst"],
     "C13": ["run", "reg", "long"],
     "C14": ["comp"],
     "C15": ["reg"],
